@@ -25,6 +25,48 @@ def main():
         traceback.print_exc()
         print("no check for", a.pid)
         return 2
+    if not a.replay and os.environ.get("VERIF_NO_FORK") != "1":
+        # The check proper runs in a child process: a change to the library that makes a sequence of legal public calls
+        # kill the interpreter (a memory-mapped checkpoint overwritten under a live model: SIGBUS) must end in a verdict,
+        # not in a dead checker.  Only SIGBUS / SIGSEGV / SIGFPE / SIGILL - faults of native code reached through the library -
+        # are reported as a violation of the property being replayed; anything else (kill, out of memory) is a machinery failure.
+        sys.stdout.flush()
+        pid = os.fork()
+        if pid == 0:
+            os.environ["VERIF_NO_FORK"] = "1"
+            try:
+                rc = _run(mod, a, seed)
+            except BaseException:
+                traceback.print_exc()
+                rc = 2
+            sys.stdout.flush()
+            sys.stderr.flush()
+            os._exit(rc if isinstance(rc, int) else 2)
+        _, status = os.waitpid(pid, 0)
+        if os.WIFEXITED(status):
+            return os.WEXITSTATUS(status)
+        sig = os.WTERMSIG(status)
+        import signal as _sg
+        if sig in (_sg.SIGBUS, _sg.SIGSEGV, _sg.SIGFPE, _sg.SIGILL):
+            import common
+            d = os.path.join(common.REPLAYS, a.pid)
+            os.makedirs(d, exist_ok=True)
+            path = os.path.join(d, "killed-by-signal-%d.json" % sig)
+            import json
+            with open(path, "w") as fh:
+                json.dump(dict(property=a.pid, key="process-killed:signal-%d" % sig,
+                               detail="the interpreter running the library under test was killed by signal %d (%s) while "
+                                      "the check replayed legal public calls; run ./check %s again with VERIF_NO_FORK=1 "
+                                      "under gdb / faulthandler to locate the call" % (sig, _sg.Signals(sig).name, a.pid)), fh, indent=1)
+            print("VIOLATION property=%s replay=%s" % (a.pid, path))
+            print("  key=process-killed:signal-%d" % sig)
+            return 1
+        print("MACHINERY-FAILURE property=%s: the check process was killed by signal %d (not a violation)" % (a.pid, sig))
+        return 2
+    return _run(mod, a, seed)
+
+
+def _run(mod, a, seed):
     try:
         if a.replay:
             return mod.replay(a.replay)
